@@ -1,39 +1,9 @@
 import PasetoModel.Forms
 import PasetoModel.Pae
+import Driver.Parse
 /-! Line-protocol driver: executes the model's definitions (the ones the theorems are about) on
     the operation lines produced by the harness.  One result line per operation line. -/
 open PM
-
-def hexDigit (n : Nat) : Char := if n < 10 then Char.ofNat (48 + n) else Char.ofNat (87 + n)
-def toHex (b : Bytes) : String :=
-  if b.isEmpty then "-" else
-  String.ofList (b.foldr (fun x acc => hexDigit (x.toNat / 16) :: hexDigit (x.toNat % 16) :: acc) [])
-
-def hexVal (c : Char) : Option Nat :=
-  if '0' ≤ c ∧ c ≤ '9' then some (c.toNat - 48)
-  else if 'a' ≤ c ∧ c ≤ 'f' then some (c.toNat - 87)
-  else none
-
-def ofHex (s : String) : Option Bytes :=
-  if s == "-" then some [] else
-  let rec go : List Char → Array UInt8 → Option Bytes
-    | [], acc => some acc.toList
-    | [_], _ => none
-    | a :: b :: rest, acc =>
-      match hexVal a, hexVal b with
-      | some x, some y => go rest (acc.push (UInt8.ofNat (16 * x + y)))
-      | _, _ => none
-  go s.toList #[]
-
-def errName : Err → String
-  | .base64 => "base64" | .invalidKey => "invalidKey" | .invalidToken => "invalidToken"
-  | .crypto => "crypto" | .claims => "claims" | .payload => "payload"
-
-def showRes (r : Res String) : String :=
-  match r with
-  | .ok s => "ok " ++ s
-  | .err e => "err " ++ errName e
-  | .panic _ => "panic"
 
 def parsePieces (s : String) : Option (List (List Bytes)) :=
   if s == "." then some [] else
@@ -65,6 +35,62 @@ def step (line : String) : Option String :=
   | ["b64.dec", s] => do
       let s ← ofHex s
       some (match B64.decodeVec s with | some d => "ok " ++ toHex d | none => "err base64")
+  | ["val", v, c] => do
+      let v ← parseV v
+      let c ← parseClaims c
+      some (showRes ((v.eval ⟨Extracted.tsMin, Extracted.tsMax⟩ c).map (fun _ => "-")))
+  | ["unseal.val", _be, v, c] => do
+      -- seal then unseal with a validator: claims survive the wire form (C14), the validator decides
+      let v ← parseV v
+      let c ← parseClaims c
+      let wire := claimsEncode (fun _ => []) c
+      let r := tokenUnseal (.ok []) (fun _ => match claimsDecode (some wire) with | .ok c => some c | _ => none)
+                 (v.eval ⟨Extracted.tsMin, Extracted.tsMax⟩)
+      some (showRes (r.1.map showClaims))
+  | ["claims.dec", _esc, top] =>
+      if top.startsWith "O:" then do
+        let ms ← parseMembers (top.drop 2).toString
+        some (showRes ((claimsDecode (some ms)).map (fun c => showClaims c ++ " gen=1")))
+      else if top.startsWith "X:" then some (showRes ((claimsDecode none).map showClaims))
+      else none
+  | ["claims.enc", c] => do
+      let c ← parseClaims c
+      some ("ok " ++ showMembers (claimsEncode (fun _ => []) c) ++ " rfc3339=1 rt=1")
+  | ["pipe", p] => do
+      let p ← ofHex p
+      let errOf : UInt8 → Err := fun c => match c with
+        | 1 => .invalidToken | 2 => .crypto | 3 => .claims | 4 => .base64 | _ => .invalidKey
+      let vU : Res Bytes := match p with
+        | [] => .err .invalidToken
+        | 0 :: ct => .ok ct
+        | c :: _ => .err (errOf c)
+      let dec : Bytes → Option Bytes := fun ct => if ct.head? = some 1 then none else some ct
+      let val : Bytes → Res Unit := fun m => match (m[1]? : Option UInt8) with
+        | some 1 => .err .claims | some 2 => .err .crypto | _ => .ok ()
+      let (r, tr) := tokenUnseal vU dec val
+      let res := match r with | .ok m => "ok:" ++ toHex m | .err e => "err:" ++ errName e | .panic _ => "panic"
+      let trs := if tr.isEmpty then "-" else "+".intercalate (tr.map (fun e => match e with
+        | .decode ct => "dec:" ++ toHex ct | .validate => "val"))
+      some s!"ok res={res} trace={trs}"
+  | ["pipe.seal", n, sc, c, f] => do
+      let n ← n.toNat?
+      let sc ← sc.toNat?
+      let c ← ofHex c
+      let f ← ofHex f
+      let errOf : Nat → Err := fun c => match c with
+        | 1 => .invalidToken | 2 => .crypto | 3 => .claims | 4 => .base64 | _ => .invalidKey
+      let nonce : Res Bytes := if n == 0 then .ok (str "NONCE") else .err (errOf n)
+      let encF : Option Bytes := if f.head? = some 9 then none else some f
+      let encC : Option Bytes := if c.head? = some 9 then none else some c
+      let vSeal : Bytes → Bytes → Res Bytes := fun p _ => if sc == 0 then .ok p else .err (errOf sc)
+      let r := tokenSeal nonce encF encC vSeal
+      -- which caller/ version code ran, in order (mirrors the evaluation order of the pipeline)
+      let tr := ["nonce"] ++ (if n != 0 then [] else ["fenc"] ++ (if encF.isNone then [] else ["enc"] ++
+                  (if encC.isNone then [] else ["vseal"])))
+      let res := match r with
+        | .ok (p, ft) => "ok:" ++ toHex (showToken (str "fv") [] (str ".local.") ⟨p, ft⟩)
+        | .err e => "err:" ++ errName e | .panic _ => "panic"
+      some s!"ok res={res} trace={"+".intercalate tr}"
   | [op, be, p, fk, s] =>
       if op == "tok.rt" || op == "sd.tok.rt" then do
         let be ← Backend.ofString? be
